@@ -165,6 +165,7 @@ def check_stream_props(prop, tier, seed, log=print):
         lk = pikevm_pass(run, r, log)
         run.coverage['lookaround_reference'] = lk
         run.coverage['spec_vs_regex_crate'] = regex_crate_pass(run, r, log)
+        run.coverage['emitted_code_vs_graph'] = emit_pass(run, r, prop, log)
     run.coverage.update(dict(evaluations=evals, distinct_nontrivial=len(nontrivial),
                              rule='(definition, input) pairs run through compiled lexers in every configuration; inputs are transition-directed '
                                   '(access string of every graph state + probe bytes / EOI, self-loop run lengths 0..17) plus pattern samples and random strings; '
@@ -174,6 +175,42 @@ def check_stream_props(prop, tier, seed, log=print):
     run.assumptions += ['look-around definitions are covered by the graph-level theorems and the implementation-vs-model tie only (spec-level theorems are stated for the look-free fragment)',
                         'quantifier over definitions is sampled (corpus); per validated definition the theorem covers every input']
     return run.finish()
+
+
+def emit_pass(run, r, prop, log):
+    """translation validation of the generator's rendering: the text of the generated code, evaluated on all
+    256 byte values per state, against the captured graph (tools/emitcheck.py), for both code generators."""
+    import subprocess
+    import emitcheck as E
+    acc = r['accepted']
+    srcs = [r['srcs'][i] for i in acc]
+    res = dict(definitions=len(acc), flavours=[], differences=0)
+    flav = [('tail-call', os.path.join(P.HARNESS, 'target', 'debug', 'capture'))]
+    smb = P.build_capture_sm()
+    if smb:
+        flav.append(('state-machine', smb))
+    for name, binp in flav:
+        o = subprocess.run([binp, '--code'], input='\n----\n'.join(srcs) + '\n', capture_output=True, text=True).stdout
+        caps2 = P._parse_capture(o, len(srcs))
+        res['flavours'].append(name)
+        targets = {}
+        for k, c in enumerate(caps2):
+            i = acc[k]
+            if c is None or c.verdict != 'ACCEPT' or c.codetext is None:
+                continue
+            diffs = E.compare(c.codetext, r['caps'][i])
+            if diffs:
+                res['differences'] += 1
+                targets[i] = [(d.get('state'), d.get('byte')) for d in diffs if d.get('state') is not None]
+                found = set()
+                if name == 'tail-call':
+                    found = cert_fail_search(run, r, prop, [i], log, targets=targets, why='search around the (state, byte) where the emitted code departs from the graph')
+                if i not in found:
+                    run.violation('emitted-code', dict(definition=r['srcs'][i], origin=r['corpus'][i].origin, generator=name, differences=diffs[:5],
+                                                       what='the generated code does not implement the captured graph (static evaluation of the emitted byte tests / setup / end-of-input code)',
+                                                       correspondence='generator rendering vs Graph (tools/emitcheck.py)'), no_input=True,
+                                  key='emit|%s|%s' % (name, r['corpus'][i].origin))
+    return res
 
 
 def regex_crate_pass(run, r, log):
@@ -322,7 +359,8 @@ def pikevm_pass(run, r, log):
     return dict(definitions=len(look), comparisons=len(asked), failures=bad)
 
 
-def cert_fail_search(run, r, prop, defs_, log):
+def cert_fail_search(run, r, prop, defs_, log, targets=None, why='search around the failed certificate'):
+    """defs_: definition indices; targets: optional {idx: [(state, byte)]} (default: parsed from the CERT verdict)"""
     import zoo as Z
     lean = r['lean']
     found = set()
@@ -337,14 +375,18 @@ def cert_fail_search(run, r, prop, defs_, log):
         cap = r['caps'][idx]
         acc = P.access_strings(cap)
         cands = set()
-        if m and int(m.group(1)) in acc:
-            base = acc[int(m.group(1))] + [int(m.group(2))]
+        tg = list(targets.get(idx, [])) if targets else ([(int(m.group(1)), int(m.group(2)))] if m else [])
+        for (ts, tb) in tg:
+            if ts not in acc:
+                continue
+            base = acc[ts] + ([tb] if tb is not None else [])
             tails = [[]] + [[b] for b in P.PROBES] + [[0x61, 0x61], [0x40], [0x7a, 0x30], [0x61, 0x62, 0x63]]
             for t in tails:
                 cands.add(bytes(base + t))
-            for s_, a in acc.items():
-                cands.add(bytes(a + [int(m.group(2))]))
-                cands.add(bytes(a + [int(m.group(2)), 0x61]))
+            if tb is not None:
+                for s_, a in acc.items():
+                    cands.add(bytes(a + [tb]))
+                    cands.add(bytes(a + [tb, 0x61]))
         # complete each candidate to a full match with the reference semantics (shortest extension)
         cl = P.case_block(str(idx), cap, r['corpus'][idx]) + ['Q COMPLETE ' + P.hexs(c) for c in sorted(cands)]
         comp = P.run_lean(cl, nproc=1)
@@ -375,7 +417,7 @@ def cert_fail_search(run, r, prop, defs_, log):
         cls = 'C02' if (b is not None and b[0] == 'err') else ('C03' if (b is not None and b[0] == 'final' and a is not None and a[0] == 'final') else 'C01')
         if cls == prop:
             found.add(idx)
-            run.violation('oracle', rep_of(r, idx, cfg, 'n', hx, observed=v, expected_by_reference_lexer=sv, found_by='search around the failed certificate',
+            run.violation('oracle', rep_of(r, idx, cfg, 'n', hx, observed=v, expected_by_reference_lexer=sv, found_by=why,
                                            first_divergence=dict(index=j, observed=a, expected=b)), key='%s|%s' % (r['corpus'][idx].origin, hx))
     return found
 
@@ -800,6 +842,8 @@ def check_c07(tier, seed, log=print):
         if st is None:
             continue
         for idx, (chosen, fam) in r['pfx'].items():
+            if any(l.cb in (20, 21, 22) for l in corpus[idx].leaves):
+                continue   # bumping callbacks look at the text after the match: their result legitimately depends on later input
             for S in chosen:
                 full = st.get((idx, 'n', P.hexs(S)))
                 if full is None:
